@@ -10,6 +10,7 @@ CONSTANTS
   BulkVersionsUsesEpoch = FALSE
   FillPolicy = "if_same_generation"
   FlushIgnoresCleanFlag = TRUE
+  FlushBumpsGeneration = TRUE
   Export = FALSE
   MaxSteps = 3
   WithReads = TRUE
